@@ -48,7 +48,11 @@ func flushSinkToFile(sink ByteSink, path string) (err error) {
 	}()
 
 	err = sink.Flush(f)
-	return err
+	if err != nil {
+		return err
+	}
+	// The file is about to be named by a manifest: its contents must be on disk before that.
+	return f.Sync()
 }
 
 // A ByteSink is an interface for writing bytes which can later be flushed to a writer
@@ -343,6 +347,22 @@ func (sink *BufferedFileByteSink) Flush(wr io.Writer) (err error) {
 // FlushToFile writes all the data that was written to the ByteSink to a file at the given path
 func (sink *BufferedFileByteSink) FlushToFile(path string) (err error) {
 	err = sink.finish()
+	if err != nil {
+		return err
+	}
+
+	// The background writer closes the temp file without syncing it. The file is about to appear
+	// under the name a manifest will refer to (garbage collection moves its output into place this
+	// way), so its contents must be on disk first: after a crash a manifest must never name a table
+	// file whose data was lost.
+	f, err := os.OpenFile(sink.path, os.O_RDWR, 0)
+	if err != nil {
+		return err
+	}
+	err = f.Sync()
+	if cerr := f.Close(); err == nil {
+		err = cerr
+	}
 	if err != nil {
 		return err
 	}
